@@ -608,7 +608,7 @@ impl Engine for C17 {
                 "behaviour after resuming a coroutine that died with an error, and a main thread that waits for a lazy held by a suspended coroutine (program-level deadlock), are not specified by the property: the generator avoids them and the model stops comparing there",
             ],
             shrink: vec!["/main", "/coros/0", "/coros/1", "/coros/2", "/threads/0", "/threads/1", "/threads/2", "/threads/3"],
-            quick: (8000, 150),
+            quick: (24000, 150),
             thorough: (300000, 1100),
         }
     }
